@@ -106,6 +106,10 @@ func (g *Gen) inputRaw(n *Node) IVal {
 	if r.P(g.P.PAbsent) {
 		return g.absent()
 	}
+	if (n.Def != nil || n.HasDef) && r.P(30) {
+		// a Default only acts on absent input: make sure it is exercised whatever the profile
+		return g.absent()
+	}
 	switch n.Kind {
 	case KString:
 		c := r.Intn(100)
